@@ -88,6 +88,20 @@ op_init(Op *op, const char *what, bool allow_close)
 	nng_aio_set_timeout(op->u->aio, op->timeout);
 }
 
+// An operation that cannot complete by itself needs a finite timeout unless a
+// disturbance that is guaranteed to complete it will arrive after submission
+// (a cancel/abort issued *before* submission is legitimately forgotten by the
+// next nni_aio_reset).
+static void
+op_ensure_finite(Op *op, nng_duration ms)
+{
+	bool sure = op->action != D_NONE && !op->go;
+	if (op->timeout < 0 && !sure) {
+		op->timeout = ms;
+		nng_aio_set_timeout(op->u->aio, ms);
+	}
+}
+
 // finish an op: make sure disturber is done, wait for completion, validate.
 // natural: set of result codes the operation may produce by itself.
 // tmo_eff: effective timeout in ms that may produce ETIMEDOUT (-1 none)
@@ -232,9 +246,11 @@ xfer_recv_one(Xfer *x, bool final_drain)
 	op_init(&op, "pair_recv", false);
 	if (final_drain) {
 		op.action  = D_NONE;
+		op.go      = 0;
 		op.timeout = 300;
 		nng_aio_set_timeout(op.u->aio, 300);
 	}
+	op_ensure_finite(&op, 40);
 	int tid = sim_spawn("dist", disturber, &op, 0);
 	if (op.go)
 		sim_yield();
@@ -264,23 +280,27 @@ xfer_run(Params *p)
 {
 	Xfer x;
 	int  tr   = (int) p->draw("tr", 0, 2);
-	int  prot = (int) W(0, 1);
+	int  prot = (int) W(0, 2);
 	x.nmsgs   = (int) W(1, 14);
 	x.sender_done = 0;
 	if (prot == 0) {
 		MUST(nng_pair0_open(&x.a));
 		MUST(nng_pair0_open(&x.b));
-	} else {
+	} else if (prot == 1) {
 		MUST(nng_pair1_open(&x.a));
 		MUST(nng_pair1_open(&x.b));
+	} else {
+		MUST(nng_push0_open(&x.a));
+		MUST(nng_pull0_open(&x.b));
 	}
 	MUST(nng_socket_set_int(x.a, NNG_OPT_SENDBUF, (int) W(0, 2)));
-	MUST(nng_socket_set_int(x.b, NNG_OPT_RECVBUF, (int) W(0, 2)));
+	if (prot != 2)
+		MUST(nng_socket_set_int(x.b, NNG_OPT_RECVBUF, (int) W(0, 2)));
 	std::string url = h_url(tr, 20);
 	MUST(nng_listen(x.b, url.c_str(), NULL, 0));
 	MUST(nng_dial(x.a, url.c_str(), NULL, 0));
 	sim_quiesce(10000000);
-	sim_event("c02_xfer tr=%s pair%d msgs=%d", h_tr_name(tr), prot, x.nmsgs);
+	sim_event("c02_xfer tr=%s proto=%s msgs=%d", h_tr_name(tr), prot == 2 ? "push/pull" : prot ? "pair1" : "pair0", x.nmsgs);
 	sim_spawn("sender", xfer_sender, &x, 0);
 	while (!x.sender_done || W(0, 3) == 0) {
 		xfer_recv_one(&x, false);
@@ -394,12 +414,7 @@ pending_run(Params *p)
 			else
 				nng_socket_close(s);
 		};
-		if (op.timeout == NNG_DURATION_INFINITE || op.timeout == NNG_DURATION_DEFAULT) {
-			if (op.action == D_NONE) {
-				op.timeout = 30;
-				nng_aio_set_timeout(op.u->aio, 30);
-			}
-		}
+		op_ensure_finite(&op, 30);
 		nng_msg *m = NULL;
 		if (do_send) {
 			m = tag_msg(32, 1, 0, (uint32_t) i);
@@ -479,11 +494,7 @@ dial_run(Params *p)
 			else
 				nng_dialer_close(d);
 		};
-		if ((op.timeout == NNG_DURATION_INFINITE || op.timeout == NNG_DURATION_DEFAULT) && op.action == D_NONE &&
-		    mode == 2) {
-			op.timeout = 50;
-			nng_aio_set_timeout(op.u->aio, 50);
-		}
+
 		int flags = W(0, 5) == 5 ? 0 : NNG_FLAG_NONBLOCK;
 		sim_event("op %d: dialer_start %s mode %d flags %d timeout %d disturb %s after %llu us", i, h_tr_name(tr),
 		    mode, flags, (int) op.timeout, dname[op.action], (unsigned long long) (op.delay_ns / 1000));
@@ -564,10 +575,8 @@ stream_run(Params *p)
 				buf[k] = (uint8_t) ((ctr + k) * 131u + 7u);
 		nng_iov iov = { buf.data(), len };
 		nng_aio_set_iov(op.u->aio, 1, &iov);
-		if (!do_send && (op.timeout < 0) && op.action == D_NONE) {
-			op.timeout = 20;
-			nng_aio_set_timeout(op.u->aio, 20);
-		}
+		if (!do_send)
+			op_ensure_finite(&op, 20);
 		sim_event("op %d: %s %zu bytes timeout %d disturb %s", i, op.what, len, (int) op.timeout, dname[op.action]);
 		int tid = sim_spawn("dist", disturber, &op, 0);
 		if (op.go)
